@@ -55,6 +55,8 @@ def v3_setup(rng, level, discover=None, ktypes=None):
         discover = rng.random() < 0.5
     if not discover:
         sess["engine_id"] = eng
+    elif rng.random() < 0.35:
+        sess["engine_id_empty"] = True
     return agent, sess
 
 
@@ -89,6 +91,8 @@ def multi_setup(rng, versions, levels=None, ktypes=None, discover_p=0.5, mib_row
             cfg = {"version": "v3", "user": u, "timeout_ns": gen.timeout_ns(rng)}
             if rng.random() >= discover_p:
                 cfg["engine_id"] = eng
+            elif rng.random() < 0.35:
+                cfg["engine_id_empty"] = True
         else:
             cfg = community_session(rng, v)
             if cfg["community"] not in agent["communities"]:
